@@ -523,6 +523,17 @@ def run_case(case):
                         probe_exchange(res, a.active_region, rng, key)
                         probed[0] += 1
             drive.sweep(r, on_step=after)
+            if all(len(a.region) == 1 for a in r.assemblies) and \
+                    rng.random() < 0.5:
+                # a second sweep on the same model after Reactor.reset()
+                # (restores the temperatures; single-region assemblies only,
+                # reset() does not re-activate the first region): every step
+                # of every sweep must balance, also the first one, which
+                # starts from whatever the first sweep left behind
+                with drive.quiet():
+                    r.reset()
+                drive.sweep(r)
+                res.tag('second_sweep_after_reset')
             rise = max(a.avg_coolant_temp for a in r.assemblies) - T_in
             res.stat('coolant_rise_K', rise)
             for k in ('gap', 'tdep', 'conv_approx', 'lf'):
